@@ -142,6 +142,16 @@ class Executor:
             dec.finish_run()
         return list(self.obligations.values())
 
+    def _spec(self, fn, *args):
+        """Evaluate a specification callback; a specification that names a local / field / result shape the code no longer has
+        (renamed local, different return shape...) makes the check undecided, not a crash and not a violation."""
+        try:
+            return list(fn(*args))
+        except (KeyError, AttributeError, IndexError, TypeError) as e:
+            if isinstance(e, (Unsupported, Undecided)):
+                raise
+            raise Undecided(f"specification {getattr(fn, '__qualname__', fn)} does not match the code any more: {type(e).__name__}: {e}") from e
+
     def check(self, goal, kind, label, lineno=0, aux=False, tracked=None, assume_after=True):
         st = self.st
         self._seq += 1
@@ -196,9 +206,9 @@ class Executor:
             # a generator under contract: its result is the list of the yielded values (hidden local `__yield__`)
             frame.env["__yield__"] = self.coerce(self.models.make_list(self, []), ct.returns) if ct.returns is not None else self.models.make_list(self, [])
         c0 = C.Ctx(st, old_heap, st.heap, args)
-        for label, f in ct.requires(c0):
+        for label, f in self._spec(ct.requires, c0):
             st.assume(f)
-        for label, f in ct.axioms(c0):
+        for label, f in self._spec(ct.axioms, c0):
             st.assume(f)
             self.assumed.add(f"axiom:{label}")
         # vacuity canary: the hypotheses must not be contradictory
@@ -230,7 +240,7 @@ class Executor:
             frame_first = getattr(ct, "frame_first", False)  # opt-in: frame obligations before (hence without) the postconditions as hypotheses
             if frame_first:
                 self.check_frame(old_heap, args, ct.modifies, "frame", end)
-            for label, f in ct.ensures(c):
+            for label, f in self._spec(ct.ensures, c):
                 if label.startswith("assumed:"):
                     # a clause the verifier cannot establish (stated, used by callers, listed as an assumption)
                     self.assumed.add(f"postcondition {label} of {fi.qualname}")
@@ -253,7 +263,7 @@ class Executor:
             else:
                 if entry[1] is not None:
                     self.check(entry[1](c), "raises", f"{entry[0]}-only-when", exc.lineno)
-                for label, f in ct.raise_ensures(c, entry[0]):
+                for label, f in self._spec(ct.raise_ensures, c, entry[0]):
                     self.check(f, "post", f"on-{entry[0]}:{label}", exc.lineno)
 
     def _defaults(self, fi):
@@ -606,7 +616,7 @@ class Executor:
         saved_pre = getattr(self, "_loop_pre", None)
         self._loop_pre = (st.snapshot(), pre_env)  # state at loop entry, visible to the invariant as c.pre_locals
         # 1. initialisation
-        for label, f in spec.inv(self._loop_ctx(seq, z3.IntVal(0)), z3.IntVal(0)):
+        for label, f in self._spec(spec.inv, self._loop_ctx(seq, z3.IntVal(0)), z3.IntVal(0)):
             self.check(f, "inv_init", label, ln, aux=True)
         branch = st.choose(2)
 
@@ -645,7 +655,7 @@ class Executor:
             if is_for:
                 st.assume(k < seq.n)
             havoc(k)
-            for label, f in spec.inv(self._loop_ctx(seq, k), k):
+            for label, f in self._spec(spec.inv, self._loop_ctx(seq, k), k):
                 st.assume(f)
             if is_for:
                 self._assume_iteration_instance(seq, k)
@@ -667,7 +677,7 @@ class Executor:
             if measure0 is not None:
                 measure1 = spec.decreases(self._loop_ctx(seq, k + 1), k + 1)
                 self.check(z3.And(measure0 >= 0, measure1 < measure0), "termination", "measure-decreases", ln, aux=True)
-            for label, f in spec.inv(self._loop_ctx(seq, k + 1), k + 1):
+            for label, f in self._spec(spec.inv, self._loop_ctx(seq, k + 1), k + 1):
                 self.check(f, "inv_pres", label, ln, aux=True)
             for i, o in snap.items():
                 if i in mod or i not in st.heap:
@@ -695,7 +705,7 @@ class Executor:
                 self.exec_block(node.orelse)
                 return
             havoc(seq.n)
-            for label, f in spec.inv(self._loop_ctx(seq, seq.n), seq.n):
+            for label, f in self._spec(spec.inv, self._loop_ctx(seq, seq.n), seq.n):
                 st.assume(f)
             # the loop target is bound to the last element
             self.assign(node.target, seq.elem(seq.n - 1))
@@ -709,7 +719,7 @@ class Executor:
                 pass
             else:
                 havoc(k)
-            for label, f in spec.inv(self._loop_ctx(None, k), k):
+            for label, f in self._spec(spec.inv, self._loop_ctx(None, k), k):
                 st.assume(f)
             st.assume(z3.Not(self.truth_term(self.ev(node.test))))
         leave()
@@ -1746,9 +1756,9 @@ class Executor:
         short = fi.qualname.rsplit(".", 2)[-2:] if fi.cls is not None else [fi.qualname.rsplit(".", 1)[-1]]
         short = ".".join(short)
         c0 = C.Ctx(st, st.heap, st.heap, bound)
-        for label, f in ct.requires(c0):
+        for label, f in self._spec(ct.requires, c0):
             self.check(f, "pre", f"{short}:{label}", lineno, aux=True)
-        for label, f in ct.axioms(c0):
+        for label, f in self._spec(ct.axioms, c0):
             st.assume(f)
         old = st.snapshot()
         for path in ct.modifies:
@@ -1758,7 +1768,7 @@ class Executor:
         outcomes = [None] + [en for en, cond in ct.raises.items()]
         pick = st.choose(len(outcomes)) if len(outcomes) > 1 else 0
         if pick == 0:
-            for label, f in ct.ensures(c):
+            for label, f in self._spec(ct.ensures, c):
                 st.assume(f)
             if ct.raises_exact:
                 for en, cond in ct.raises.items():
@@ -1771,7 +1781,7 @@ class Executor:
         cond = ct.raises[en]
         if cond is not None:
             st.assume(cond(c))
-        for label, f in ct.raise_ensures(c, en):
+        for label, f in self._spec(ct.raise_ensures, c, en):
             st.assume(f)
         if not st.feasible():
             raise PathEnd
